@@ -744,6 +744,16 @@ pub async fn vrf_directories<TC: Configuration>(cx: &mut Cx, r: &mut Rng, nkeys:
             let mut q = p.clone();
             q.freshness_proof.label.label_val[9] ^= 1;
             alts.push(("claimed freshness node label altered", ok(&pk, &al, &q)));
+            for len in [255u32, 254, 128] {
+                let mut q = p.clone();
+                if len > q.freshness_proof.longest_prefix.label_len {
+                    q.freshness_proof.label.label_len = len;
+                    alts.push(("claimed freshness node label cut short (same VRF bytes, label_len < 256)", ok(&pk, &al, &q)));
+                }
+                let mut q = p.clone();
+                q.marker_proof.label.label_len = len;
+                alts.push(("claimed marker node label cut short", ok(&pk, &al, &q)));
+            }
             let mut q = p.clone();
             std::mem::swap(&mut q.existence_vrf_proof, &mut q.freshness_vrf_proof);
             alts.push(("existence and freshness VRF proofs swapped", ok(&pk, &al, &q)));
